@@ -1,4 +1,5 @@
 import LC.Props.C20Heap
+import LC.Props.C20HeapSort
 import LC.Props.C20Sets
 import LC.Props.C20SetsAlgebra
 #print axioms LC.Heap.reachable_inv
@@ -7,6 +8,9 @@ import LC.Props.C20SetsAlgebra
 #print axioms LC.Heap.pop_spec
 #print axioms LC.Heap.remove_spec
 #print axioms LC.Heap.setFix_spec
+#print axioms LC.Heap.vals_length
+#print axioms LC.Heap.drain_sorted
+#print axioms LC.Heap.drain_sorted_reachable
 #print axioms LC.Sets.new_spec
 #print axioms LC.Sets.insert_spec
 #print axioms LC.Sets.delete_spec
